@@ -89,7 +89,7 @@ PROTO = "rpyc/core/protocol.py::Connection."
 ATTR_FUNCS = [PROTO + n for n in ("_check_attr", "_access_attr", "_handle_getattr", "_handle_setattr", "_handle_delattr",
                                   "_handle_call", "_handle_callattr", "_handle_cmp", "_handle_ctxexit", "_handle_oldslicing")]
 SERVICE_HOOKS = ["rpyc/core/service.py::Service._rpyc_delattr", "rpyc/core/service.py::Service._rpyc_setattr"]
-ALL_CONTRACTS = ["brine", "compat", "externals", "stream", "channel", "protocol_attr", "colls", "protocol_box", "protocol_core", "async_", "protocol_close", "lib", "netref", "protocol_handlers", "scenarios", "vinegar"]
+ALL_CONTRACTS = ["brine", "compat", "externals", "stream", "channel", "protocol_attr", "colls", "protocol_box", "protocol_core", "async_", "protocol_close", "lib", "netref", "protocol_handlers", "scenarios", "vinegar", "classic"]
 ALL_SPECS = ["brine_spec", "channel_spec", "policy_spec", "refcount_spec", "protocol_spec", "box_spec", "netref_spec", "vinegar_spec"]
 
 PLANS["C06"] = dict(
@@ -279,7 +279,7 @@ PLANS["C02"] = dict(
     title="Operating on a proxy is indistinguishable from operating on the target (per-operation forwarding)",
     contracts=ALL_CONTRACTS, specs=ALL_SPECS, table="module",
     targets=[NETREF + "syncreq", NETREF + "asyncreq"] + FWD_METHODS + GEN_METHODS + SMALL_HANDLERS + ATTR_FUNCS,
-    lemmas=[], compositions=[], finite=["handler_table"], native_focus=[], design_ref="DESIGN.md section 4, C02",
+    lemmas=[], compositions=[], finite=["handler_table"], bounded=["buffiter_bounded"], native_focus=[], design_ref="DESIGN.md section 4, C02",
     assumptions=COMMON_ASSUMPTIONS + [
         "SCOPE: the property is decided operation by operation. PROXY HALF (verified): every special method of BaseNetref and "
         "every generated method (_make_method's four shapes) performs exactly ONE request on the proxy's own connection, with "
@@ -293,9 +293,11 @@ PLANS["C02"] = dict(
         "`same result as on the target` then follows because the handler runs the very operation on the very object; the "
         "operations themselves (repr, hash, getattr, the call) are ghost events, i.e. arbitrary user code",
         "NOT under contract: which methods a generated proxy class has (class_factory, _handle_inspect, lib.get_methods, "
-        "NetrefClass), __instancecheck__ against non-proxy objects, helpers.buffiter (a generator; only the handler and the "
-        "request it sends per chunk are covered), bool()/len()/iteration which go through generated methods (covered as "
-        "_make_method shapes only)",
+        "NetrefClass), __instancecheck__ against non-proxy objects, bool()/len()/iteration which go through generated methods "
+        "(covered as _make_method shapes only)",
+        "BOUNDED (not a proof): helpers.buffiter is a generator, outside the verifier's subset; it is run against its spec "
+        "(yields exactly what plain iteration yields, exhausts the target) for every combination of target length 0..40, chunk "
+        "1..9, max_chunk 1..9, factor in {1, 2, 3, 5}, with the request served by the handler's own logic",
         "self.__getattr__ inside __getattribute__ resolves to BaseNetref.__getattr__ (LOCAL_ATTRS lookup; class_factory never "
         "overrides a LOCAL_ATTRS name)",
         "kwargs are forwarded as tuple(kwargs.items()) - an uninterpreted function of the dict's contents (order = the dict's)",
@@ -312,7 +314,7 @@ PLANS["C01"] = dict(
              PROTO + "_dispatch_request", PROTO + "_seq_request_callback", PROTO + "_handle_call", PROTO + "_handle_callattr",
              PROTO + "_access_attr", ASYNC + "__call__", ASYNC + "value", ASYNC + "wait",
              SCEN + "echo_returns_the_original", SCEN + "value_travels_by_copy"],
-    lemmas=BOX_LEMMAS + ["frames_app", "all_fit_app"], compositions=["C04/roundtrip"], finite=["handler_table"],
+    lemmas=BOX_LEMMAS + ["frames_app", "all_fit_app"], compositions=["C04/roundtrip"], finite=["handler_table", "builtin_exceptions"],
     native_focus=[], design_ref="DESIGN.md section 4, C01",
     assumptions=COMMON_ASSUMPTIONS + [
         "SCOPE: the property is decided hop by hop, each hop a verified contract: (1) a callable proxy / generated method "
@@ -374,8 +376,7 @@ PLANS["C09"] = dict(
 PLANS["C07"] = dict(
     title="A hostile peer cannot step outside what the service exposes",
     contracts=ALL_CONTRACTS, specs=ALL_SPECS, table="module",
-    targets=ATTR_FUNCS + [PROTO + n for n in ("_unbox", "_dispatch", "_dispatch_request", "_handle_pickle", "_handle_del",
-                                              "_unbox_exc", "_box_exc")] +
+    targets=ATTR_FUNCS + [PROTO + n for n in ("_unbox", "_handle_pickle", "_handle_del", "_unbox_exc", "_box_exc")] +
             [VINEGAR + "load", COLLS + "__getitem__", COLLS + "decref", SCEN + "forged_reference_is_refused"],
     lemmas=["frames_app", "all_fit_app", "plain_snoc", "snoc_is_app", "app_app1", "app_nil"], compositions=[],
     finite=["handler_table", "default_config"], native_focus=[], design_ref="DESIGN.md section 4, C07",
@@ -393,14 +394,39 @@ PLANS["C07"] = dict(
         "allow_pickle, import_custom_exceptions and instantiate_custom_exceptions off (enumeration over DEFAULT_CONFIG)",
         "(4) crafted exception payloads: vinegar.load[closed] - no import, no constructor, only built-in exception classes or the "
         "generic stand-in, for ANY plain payload (type confusions raise)",
-        "(5) every failure is answered: _dispatch_request turns every handler failure (unknown handler number, wrong arity, "
-        "refused access, KeyError for a forged id) into exactly one exception reply; the handler table serves exactly the "
-        "published handler numbers (enumeration)",
+        "(5) the handler table serves exactly the published handler numbers (enumeration); that every failure of a handler is "
+        "ANSWERED with an exception reply is C08's clause (Connection._dispatch_request / _dispatch are verified there, with the "
+        "findings F2 / F11: a reply that cannot be produced ends the connection - which C07's statement allows: `at worst ends "
+        "that one connection`)",
         "NOT covered: _handle_inspect / _handle_instancecheck / _handle_getroot bodies beyond their table lookups; denial of "
-        "service (a peer can always send huge or endless messages); the two findings F2 / F11 (a reply that cannot be produced "
-        "ends the connection - `at worst ends that one connection` is what the statement allows, they are listed because C08 "
-        "forbids them)",
+        "service (a peer can always send huge or endless messages)",
         "`leaves the service's state untouched`: frames of the refusing paths (modifies = nothing on KeyError / AttributeError "
         "paths); what an ALLOWED call does to the service is the service's business",
+    ],
+)
+
+
+CLASSIC = "rpyc/utils/classic.py::"
+PLANS["C20"] = dict(
+    title="Uploading and downloading files reproduces them byte for byte",
+    contracts=ALL_CONTRACTS, specs=ALL_SPECS, table="module",
+    targets=[CLASSIC + n for n in ("upload", "upload_file", "upload_dir", "download", "download_file", "download_dir")],
+    lemmas=[], compositions=[], native_focus=[], design_ref="DESIGN.md section 4, C20",
+    assumptions=COMMON_ASSUMPTIONS + [
+        "FILE MODEL (assumed library contract): a file object has a fixed content; read(k) with k >= 1 on a regular file returns "
+        "exactly the next min(k, remaining) bytes (short only at end of file); write(b) appends all of b; open() yields a new "
+        "object at position 0; a file used in `with` is closed on every exit. A proxy of the peer's file object behaves the same "
+        "(C02). The copy loops are proved for EVERY chunk size >= 1 and every content (loop invariant: written == content[:pos])",
+        "FILE SYSTEM MODEL (assumed): which paths are directories / files, what a directory lists and how names join are "
+        "uninterpreted functions of the path and the side; listdir returns texts",
+        "directory level (verified per call, for every tree by the recursion's modularity): a directory goes to the directory "
+        "function, a file to the copy loop, anything else raises unless ignore_invalid; the destination directory is created iff "
+        "missing; the filter is asked exactly once per entry with exactly the entry's name; an accepted entry is transferred to "
+        "join(dst, name) from join(src, name) with the same filter and chunk size; a rejected entry causes no event at all",
+        "`reproduces the whole tree` is the induction over the tree's depth on these per-call contracts (stated, not "
+        "mechanised); termination (finite trees, no symlink cycles) is not proved",
+        "NOT covered: upload_package / upload_module (path discovery through distutils), obtain / deliver (C03)",
+        "I/O errors (OSError from open/read/write/listdir/makedirs, any failure of a remote call) propagate: the statement is about "
+        "transfers that complete",
     ],
 )
